@@ -404,6 +404,12 @@ def accessors(prog, chk, names):
         up = it.interval_of(Rat.sym(m) - Rat.sym('NShells_ComptonProfiles[%s]' % z), p)
         chk.decide(up.hi is not None and up.hi <= -1, 'accessor-macro-range', U, 'ElectronConfig_Biggs', m + ' upper', loc,
                    'shell is not bounded by NShells_ComptonProfiles[Z]', why='shell < NShells[Z]')
+        # no constant cap below the deepest tabulated shell: the occupancy table has as many columns as the longest record of the data file
+        from xvlib.coverage import DataFacts
+        mx = max(DataFacts(prog).table('NShells_ComptonProfiles').values())
+        chk.decide(iv.hi is None or iv.hi >= mx - 1, 'accessor-macro-range', U, 'ElectronConfig_Biggs', m + ' cap', loc,
+                   'shells above %s are refused although data/comptonprofiles.dat records occupancies for %d shells (up to shell value %d): '
+                   'recorded values are answered with an error' % (iv.hi, mx, mx - 1), why='every tabulated shell (0..%d) can be served' % (mx - 1))
         ivz = it.interval_of(Rat.sym(z), p)
         chk.decide(ivz.lo == 1 and ivz.hi == zmax, 'accessor-Z-range', U, 'ElectronConfig_Biggs', 'Z', loc, 'Z range [%s,%s]' % (ivz.lo, ivz.hi),
                    why='Z in [1, ZMAX]')
